@@ -60,6 +60,13 @@ Definition prop_op (op : zop) (o : list Z) : bool :=
       (10 <=? Z.of_nat (length o)) && seven_ok (firstn 7 o) &&
       (if nth 7 o 0 =? 0 then true else all_eq 0 (firstn 7 o)) &&
       PrimFloat.leb (u2f (zN (nth 8 o 0))) (F (nth 0 o NAN_BITS))
+  | 10 =>
+      (* a CPC image: whatever the reader accepts must report ordered, nested bounds and an estimate >= its coupon count,
+         and CpcWrapper must agree with the sketch *)
+      if is_err o then true else
+      (17 <=? Z.of_nat (length o)) && seven_ok (firstn 7 o) &&
+      PrimFloat.leb (u2f (zN (nth 8 o 0))) (F (nth 0 o NAN_BITS)) &&
+      list_eqb Z.eqb (firstn 7 o) (firstn 7 (skipn 10 o))
   | 9 =>
       (* HllUnion's own estimate and bounds are ordered and nested, and they are those of its result sketch *)
       (15 <=? Z.of_nat (length o)) && seven_ok (firstn 7 o) && seven_ok (firstn 7 (skipn 7 o)) &&
